@@ -583,7 +583,11 @@ class Loader:
             # Otherwise, remove schedule once apps and try to put back the rest
             # as usual (app lease needs to be re-evaluated).
             _LOGGER.info('Restore placement %s => %s', appname, servername)
-            if presence_time and presence_time <= placement_time:
+            if not server.check_app_affinity_limit_up(app):
+                # Server.put only checks the server level affinity limit, the
+                # server may have been moved to another rack.
+                restored = False
+            elif presence_time and presence_time <= placement_time:
                 restored = server.restore(app, expires)
             else:
                 if app.schedule_once:
